@@ -71,7 +71,23 @@ def special_cases(ctx):
     os.chmod(noexec, 0o644)
     adir = os.path.join(wd, "adir")
     os.mkdir(adir)
+    afile = os.path.join(wd, "afile")
+    open(afile, "w").close()
+    loop = os.path.join(wd, "loop")
+    os.symlink("loop", loop)
+    dang = os.path.join(wd, "dangling-cmd")
+    os.symlink("nowhere", dang)
+    sub_noexec = os.path.join(adir, "inner")
+    with open(sub_noexec, "w") as f:
+        f.write("#!/bin/sh\nexit 0\n")
+    os.chmod(sub_noexec, 0o600)
     cases = [
+        # the command exists but cannot be executed for a reason other than a missing execute bit: still "cannot be run" (126)
+        ("command path through a regular file (ENOTDIR)", [], [afile + "/x"], b"a\n", 126, 0),
+        ("command is a symbolic link loop (ELOOP)", [], [loop], b"a\n", 126, 0),
+        ("not-executable mode 600", ["-n1"], [sub_noexec], b"a\nb\n", 126, 0),
+        ("dangling symbolic link as command (ENOENT)", [], [dang], b"a\n", 127, 0),
+        ("missing command below an existing directory", [], [adir + "/nope"], b"a\n", 127, 0),
         ("missing-command-abs", [], ["/nonexistent/cmd"], b"a b\n", 127, 0),
         ("missing-command-path", [], ["no-such-command-xyz"], b"a\n", 127, 0),
         ("missing-command-n1-stops", ["-n1"], ["/nonexistent/cmd"], b"a\nb\nc\n", 127, 0),
